@@ -74,4 +74,71 @@ theorem limit_sublist (bs : List (List α)) (s : LimitSt) :
 
 example : limitRun ⟨2, 3⟩ [[1, 2, 3], [], [4, 5], [6, 7, 8]] = [3, 4, 5] := by decide
 
+/-- `scan_inner` after the repair of F36: a stored chunk is handed out in slices of at most
+`capacity.max(1)` rows; `chunk_row_offset` is the length of what has been handed out. -/
+def sliceChunk (cap : Nat) (xs : List α) : List (List α) :=
+  if h : xs.length ≤ max cap 1 then [xs]
+  else xs.take (max cap 1) :: sliceChunk cap (xs.drop (max cap 1))
+termination_by xs.length
+decreasing_by
+  simp only [List.length_drop]
+  have : 1 ≤ max cap 1 := Nat.le_max_right _ _
+  omega
+
+/-- The batches a scan produces for a list of stored chunks. -/
+def scanBatches (cap : Nat) (chunks : List (List α)) : List (List α) := chunks.flatMap (sliceChunk cap)
+
+theorem sliceChunk_flatten (cap : Nat) (xs : List α) : (sliceChunk cap xs).flatten = xs := by
+  induction h : xs.length using Nat.strongRecOn generalizing xs with
+  | _ n ih =>
+    rw [sliceChunk]
+    split
+    · simp
+    · rename_i hlt
+      have h1 : 1 ≤ max cap 1 := Nat.le_max_right _ _
+      have := ih (xs.drop (max cap 1)).length (by simp only [List.length_drop]; omega) (xs.drop (max cap 1)) rfl
+      simp [this]
+
+theorem sliceChunk_le (cap : Nat) (xs : List α) : ∀ b ∈ sliceChunk cap xs, b.length ≤ max cap 1 := by
+  induction h : xs.length using Nat.strongRecOn generalizing xs with
+  | _ n ih =>
+    rw [sliceChunk]
+    split
+    · rename_i hle
+      intro b hb
+      simp at hb
+      subst hb
+      exact hle
+    · rename_i hlt
+      have h1 : 1 ≤ max cap 1 := Nat.le_max_right _ _
+      intro b hb
+      rcases List.mem_cons.mp hb with hb | hb
+      · subst hb
+        simp [List.length_take]
+        omega
+      · exact ih (xs.drop (max cap 1)).length (by simp only [List.length_drop]; omega) (xs.drop (max cap 1)) rfl b hb
+
+/-- **A scan returns every stored row exactly once, in order, in batches no larger than the output
+capacity** - whatever the sizes of the stored chunks and whatever batch size wrote them. -/
+theorem scan_batches_spec (cap : Nat) (chunks : List (List α)) :
+    (scanBatches cap chunks).flatten = chunks.flatten ∧ ∀ b ∈ scanBatches cap chunks, b.length ≤ max cap 1 := by
+  constructor
+  · unfold scanBatches
+    induction chunks with
+    | nil => simp
+    | cons c cs ih => simp [List.flatMap_cons, sliceChunk_flatten, ih]
+  · intro b hb
+    unfold scanBatches at hb
+    obtain ⟨c, _, hbc⟩ := List.mem_flatMap.mp hb
+    exact sliceChunk_le cap c b hbc
+
+/-- The scan of the pinned commit returned each chunk whole: with a chunk of five rows and an output
+capacity of two it produced a batch of five rows (the operator downstream then indexed past its
+buffers: F36). -/
+theorem unsliced_scan_exceeds_capacity :
+    ∃ b ∈ ([[1, 2, 3, 4, 5]] : List (List Nat)), ¬ b.length ≤ 2 := ⟨[1, 2, 3, 4, 5], by simp, by decide⟩
+
+example : scanBatches 2 [[1, 2, 3, 4, 5], [], [6]] = [[1, 2], [3, 4], [5], [], [6]] := by
+  simp [scanBatches, sliceChunk]
+
 end GlareModel.Props.C03
